@@ -88,6 +88,8 @@ class Ctx:
             self.trusted.extend(r.assumed)
             if r.unsupported:
                 self.undecided.append('%s: outside the modelled subset: %s' % (r.name, r.unsupported))
+            for why in getattr(r, 'vacuous', ()):
+                self.broken.append('%s: vacuity guard: %s' % (r.name, why))
             if not r.vcs and not r.unsupported:
                 self.broken.append('%s: zero obligations generated (vacuity guard)' % r.name)
             for vc in r.vcs:
